@@ -94,6 +94,13 @@ def gen_plan(run_seed, tier, index):
                     a['PropertyList'] = pl
         else:
             a['InstanceName'] = g.patharg(allow_bad=r.random() < 0.1)
+            if r.random() < 0.05:
+                # a class name or class path: the traditional operations
+                # accept it (class level), the Iter operations are
+                # documented for instance paths only
+                cn = a['InstanceName']['$path']['cls']
+                a['InstanceName'] = cn if r.random() < 0.5 else \
+                    {'$cname': cn, 'ns': a['InstanceName']['$path']['ns']}
             if r.random() < 0.2:
                 a['ResultClass'] = g.cls(allow_bad=False)
             if r.random() < 0.15:
@@ -457,6 +464,21 @@ def execute(plan):
                    'consume=%r fault=%r' % (plan['use_pull'], server_pull,
                                             plan['world'], call['consume'],
                                             fired))
+            if started and 'InstanceName' in a and not (
+                    isinstance(a['InstanceName'], dict) and
+                    '$path' in a['InstanceName']):
+                bump(probes, 'class_level_source_object')
+                moc_bad = 'MaxObjectCount' in a and (
+                    a['MaxObjectCount'] is None or a['MaxObjectCount'] <= 0)
+                if not isinstance(out, TypeError) and not (
+                        moc_bad and isinstance(out, ValueError)):
+                    viol('class-level-source-accepted',
+                         'call #%d %s%r (%s): InstanceName is not an instance '
+                         'path; outcome %s, %d items of type %s (documented: '
+                         'TypeError, in every configuration)' % (
+                             ctx + (okind, len(items), sorted(
+                                 {type(x).__name__ for x in items}))))
+                continue
             # ---------------------------------------------- yielded objects
             keys = [okey(x) for x in items]
             if len(set(keys)) != len(keys) and trad[0] == 'ok' and \
